@@ -170,6 +170,16 @@ class Run:
                 return
             self.got.append(msg)
 
+    async def _drain_after_error(self) -> None:
+        for _ in range(1000):
+            if not self.queue.is_eof():       # read() could block: not at EOF any more
+                return
+            try:
+                msg = await self.queue.read()
+            except BaseException:  # noqa: BLE001
+                return
+            self.got.append(msg)
+
     def exc_code(self) -> int:
         e = self.exc if self.exc is not None else self.queue.exception()
         if e is None:
@@ -189,6 +199,10 @@ class Run:
         except Exception as exc:  # noqa: BLE001  (feed_data is documented to capture errors itself)
             escaped = type(exc).__name__
         self.loop.run_until_idle()
+        if self.consumer.done() and self.exc is not None:
+            # the consumer has seen the error; anything the queue still hands out now was
+            # delivered after the violation (read() does not block once the queue is at EOF)
+            self.loop.run_coro(self._drain_after_error())
         ev = {"ev": "feed", "n": n, "st": st, "en": en, "seg": seg,
               "msgs": [project(m) for m in self.got[before:]],
               "exc": 1 if escaped else self.exc_code(),
